@@ -117,6 +117,7 @@ class FnItem:
         self.body = ''            # text between the body braces (exclusive)
         self.line_start = 0
         self.line_end = 0
+        self.assoc_types = {}     # associated types of the enclosing trait impl: name -> type text
 
     @property
     def key(self):
@@ -182,7 +183,7 @@ def index_file(path, relname):
     msk = mask(src)
     items = []
 
-    def scan(lo, hi, impl_header, owner):
+    def scan(lo, hi, impl_header, owner, assoc=None):
         i = lo
         while i < hi:
             mi = _IMPL_RE.search(msk, i, hi) if impl_header is None else None
@@ -200,7 +201,8 @@ def index_file(path, relname):
                 e = match_close(msk, b)
                 header = norm_ws(src[m.end():b])
                 own, _ = _owner_of(header)
-                scan(b + 1, e, 'impl' + ('' if header.startswith('<') else ' ') + header, own)
+                assoc_types = dict((m2.group(1), norm_ws(m2.group(2))) for m2 in re.finditer(r'\btype\s+(\w+)\s*=\s*([^;]+);', msk[b + 1:e]))
+                scan(b + 1, e, 'impl' + ('' if header.startswith('<') else ' ') + header, own, assoc_types)
                 i = e + 1
             else:
                 # a fn: find its body or `;`
@@ -234,6 +236,7 @@ def index_file(path, relname):
                 it.impl_header = impl_header
                 it.owner = owner
                 it.name = m.group(1)
+                it.assoc_types = dict(assoc or {})
                 # attributes/doc comments directly above
                 a = sig_start
                 lines_before = src[:a].split('\n')
